@@ -86,8 +86,10 @@ def run_mux_case(case, judged):
                "regs": [(r["start"], r["end"], r["width"], r["access"]) for r in regs], "stim": case["stim_seed"]}
     mon = Mon()
     if f3_unsatisfiable(ranges_r, layout["overlaps"]) or f3_unsatisfiable(ranges_w, layout["overlaps"]):
-        # known finding F3 (decided by C19): elaboration of this layout never terminates
-        return mon.result(skipped="F3: shadow_overlaps unsatisfiable for this unaligned layout", summary=summary)
+        # no shadow size can satisfy the sharing limit for this unaligned layout: the multiplexer refuses it
+        # at elaboration (finding F3, fixed; C19 checks the refusal). Nothing to simulate.
+        return mon.result(skipped="shadow_overlaps unsatisfiable for this unaligned layout (refused at elaboration)",
+                          summary=summary)
     dut = csr.Multiplexer(mm, shadow_overlaps=layout["overlaps"])
     bus = dut.bus
     model = MuxModel(regs, dw)
